@@ -11,6 +11,7 @@ exit 1  an obligation that is discharged on the pinned tree (baseline) fails now
 exit 2  undecided: lost anchor, unsupported construct, resource limit, vacuity guard, tool error
 """
 import concurrent.futures as cf
+import shutil
 import glob
 import json
 import os
@@ -78,15 +79,50 @@ def run_verus(unit_path, canary=False):
         if not final['failures']:
             final.update(status='undecided', reason='failures differ between solver seeds (unstable proof)')
     final['retries'] = len(attempts) - 1
+    if final.get('status') == 'failed':
+        isolate(unit_path, final)
     return final
 
 
-def run_verus_once(unit_path, canary=False, seed=None):
+def fn_pattern(fn):
+    """--verify-function pattern of a qualified function name (inherent methods, free functions, lemmas)."""
+    s = fn.split('::', 1)[1] if fn.startswith('src/') and '::' in fn else fn
+    if s.startswith('lemma::'):
+        return s[7:]
+    if ' for ' in s:
+        return None
+    m = re.match(r'impl(?:<[^>]*>)?\s+(\w+)(?:<[^>]*>)?::(\w+)$', s)
+    if m:
+        return m.group(1) + '::' + m.group(2)
+    return s if re.match(r'\w+$', s) else None
+
+
+def isolate(unit_path, final):
+    """A function whose obligations fail in the whole-unit run is verified once more on its own (same text, same
+    contracts, only this function's queries): Z3's search depends on everything else in the file, and a proof found
+    in either configuration is a proof.  Failures that persist are the ones reported."""
+    for fn in sorted({f['fn'] for f in final['failures'] if f.get('fn')}):
+        pat = fn_pattern(fn)
+        if not pat:
+            continue
+        r = run_verus_once(unit_path, only_fn=pat)
+        if r.get('status') == 'ok' and r.get('verified', 0) > 0:
+            final['failures'] = [f for f in final['failures'] if f.get('fn') != fn]
+            final.setdefault('isolated_proofs', []).append(short_fn(fn))
+    if not final['failures'] and not final.get('undecided_fns'):
+        final['status'] = 'ok'
+
+
+def run_verus_once(unit_path, canary=False, seed=None, only_fn=None):
     """Generate + verify one unit. Returns dict(status, ...)."""
     name = os.path.splitext(os.path.basename(unit_path))[0]
-    os.makedirs(os.path.join(WORK, 'units'), exist_ok=True)
+    # the file (= crate) name is part of every SMT symbol and therefore of Z3's search order: keep it fixed per unit
+    # (a pid in the name made the outcome of borderline proofs depend on the process id); concurrency is handled by
+    # a per-process directory instead
+    udir = os.path.join(WORK, 'units', 'p%d' % os.getpid())
+    os.makedirs(udir, exist_ok=True)
     suffix = '_canary' if canary else ''
-    out_rs = os.path.join(WORK, 'units', f'{name}{suffix}_{os.getpid()}.rs')
+    out_rs = os.path.join(udir, f'{name}{suffix}.rs')
     t0 = time.time()
     try:
         em, text = extract.generate(unit_path)
@@ -100,13 +136,13 @@ def run_verus_once(unit_path, canary=False, seed=None):
     open(out_rs, 'w').write(text)
     cmd = ['verus', out_rs, '--output-json', '--time', '--multiple-errors', '60', '--triggers-mode', 'silent', '--expand-errors']
     mvo = re.search(r'^@@#\s*verify-only:\s*([\w:]+)', extract.unit_text(unit_path), re.M)
-    verify_only = mvo.group(1) if mvo else None
+    verify_only = only_fn or (mvo.group(1) if mvo else None)
     if verify_only:
         cmd += ['--verify-root', '--verify-function', verify_only]
     if seed is not None:
         cmd += ['--smt-option', f'smt.random_seed={seed}', '--smt-option', f'sat.random_seed={seed}']
     try:
-        p = subprocess.run(cmd, capture_output=True, text=True, timeout=VERUS_TIMEOUT, cwd=os.path.join(WORK, 'units'))
+        p = subprocess.run(cmd, capture_output=True, text=True, timeout=VERUS_TIMEOUT, cwd=udir)
     except subprocess.TimeoutExpired:
         return {'unit': name, 'status': 'undecided', 'reason': f'verus timeout after {VERUS_TIMEOUT}s'}
     finally:
@@ -626,6 +662,8 @@ def main(argv):
                 os.remove(r['rs'])
         except OSError:
             pass
+    if rc == 0:
+        shutil.rmtree(os.path.join(WORK, 'units', 'p%d' % os.getpid()), ignore_errors=True)
     return rc
 
 
